@@ -11,6 +11,7 @@ import Driver.RunLimit
 import Driver.IterUtils
 import Driver.HandlerStore
 import Driver.Migrate
+import Driver.Archive
 
 def main (args : List String) : IO UInt32 := do
   let stdin ← IO.getStdin
@@ -27,4 +28,5 @@ def main (args : List String) : IO UInt32 := do
   | ["iterutils"] => Drv.loop stdin Drv.IterUtils.step .none; return 0
   | ["handlerstore"] => Drv.loop stdin Drv.HandlerStore.step (HandlerStore.Store.init (.mem none)); return 0
   | ["migrate"] => Drv.loop stdin Drv.Migrate.step Migrate.fresh; return 0
+  | ["archive"] => Drv.loop stdin Drv.Archive.step (); return 0
   | _ => IO.eprintln "usage: wfdriver <model>"; return 2
